@@ -109,6 +109,16 @@ func (cache *MemoryCache[K, V]) Set(key K, value V, ttlSec float64) error {
 		ttlDuration.Nanoseconds()
 
 	cache.mutex.Lock()
+	// The check above is only a cheap early exit; the size is re-validated
+	// under the lock so concurrent writers cannot exceed the maximum together.
+	if cache.calculateCacheSize && cache.currentCacheSize+itemSize > cache.maxCacheSize {
+		currentCacheSize := cache.currentCacheSize
+		cache.mutex.Unlock()
+		return fmt.Errorf(
+			"Cannot add item: max cache size would be exceeded."+
+				" Current cache size is %v",
+			currentCacheSize)
+	}
 	cache.cache[key] = ValueWrapper[V]{value, expirationTimeNano}
 	if cache.calculateCacheSize {
 		cache.currentCacheSize += itemSize
